@@ -6,7 +6,7 @@ use std::sync::atomic::{AtomicUsize, Ordering};
 use std::sync::Arc;
 
 /// (routed path, preference, status, size, header name, header value, stream) — same table as lean/KvarnModel/Drv/C03.lean
-const TABLE: [(&str, &str, u16, usize, &str, &str, bool); 19] = [
+const TABLE: [(&str, &str, u16, usize, &str, &str, bool); 20] = [
     ("/full", "full", 200, 60, "", "", false),
     ("/qm", "qm", 200, 60, "", "", false),
     ("/none", "none", 200, 60, "", "", false),
@@ -30,6 +30,8 @@ const TABLE: [(&str, &str, u16, usize, &str, &str, bool); 19] = [
     ("/vttl", "vttl", 200, 60, "", "", false),
     ("/vmix2", "vmix2", 200, 60, "", "", false),
     ("/vbig", "vbig", 200, 60, "", "", false),
+    // a handler that rewrites the request's URI while it runs (to `/full`): the entry belongs to the URI that was looked up
+    ("/rw", "rw", 200, 60, "", "", false),
 ];
 /// the class of a request on a page with the vary rule: event field `a` = no header (default class), `b` = sv, `c` = de
 fn class_of(variant: &str) -> usize {
@@ -83,8 +85,11 @@ fn build_host(cache: bool, permissive: bool) -> (Arc<HostCollection>, Vec<Arc<At
                 if !hn.is_empty() {
                     r.headers_mut().insert(*hn, HeaderValue::from_static(hv));
                 }
+                if *pref == "rw" {
+                    *req.uri_mut() = Uri::from_static("/full");
+                }
                 let f = match *pref {
-                    "full" => FatResponse::cache(r),
+                    "full" | "rw" => FatResponse::cache(r),
                     "qm" => FatResponse::new(r, comprash::ServerCachePreference::QueryMatters),
                     "mix" => if req.uri().query() == Some("x=1") { FatResponse::new(r, comprash::ServerCachePreference::QueryMatters) } else { FatResponse::cache(r) },
                     _ => FatResponse::no_cache(r),
@@ -131,7 +136,9 @@ fn gen_events(rng: &mut Rng, timed: bool) -> String {
             _ => {
                 let p = if rng.chance(4, 5) { *rng.pick(&focus) } else { rng.below(TABLE.len()) };
                 let m = *rng.pick(&["G", "G", "G", "G", "H", "H", "P", "O", "T"]);
-                let ims = *rng.pick(&["none", "none", "none", "new", "old"]);
+                // lm0 / lm1: If-Modified-Since = the last-modified of the stored entry (as a hit reported it) / one second
+                // before it — the boundary of "not older, to the second"; when no hit was seen yet they mean new / old
+                let ims = *rng.pick(&["none", "none", "none", "none", "new", "old", "lm0", "lm1"]);
                 format!("R:{t}:{m}:{p}:{}:{ims}:{}", rng.below(4), *rng.pick(&["a", "a", "b", "b", "c"]))
             }
         }
@@ -147,7 +154,7 @@ impl Group for History {
         "c03.hist"
     }
     fn rule(&self) -> &'static str {
-        "histories of 3-40 events over 14 handlers (Full, QueryMatters, a handler whose preference depends on the query so that both key variants of one path are live, None, 404, filtered 403, kvarn-cache-control none / 1s, cache-control max-age=2, exactly 4 MiB and one byte less, `/`->/index.html and `/d/`->/d/index.html expansions, a streaming response) x 4 query forms (none, empty, x=1, x=2) x GET/HEAD/POST/OPTIONS/TRACE x If-Modified-Since (absent, current, 10 s old) x clear_page / clear of `/` as typed / clear_response_caches, default and permissive status filter, cache on/off; timed histories use real waits of 0.3/1.6/2.6 s against lifetimes of 1 and 2 s; every handler embeds its invocation counter, so which replies are hits, which are recomputed and which are 304 is observable and compared with the model; the same history runs against an uncached twin (oracle: same status and same representation, no counter older than its lifetime); non-trivial = at least one hit or 304"
+        "histories of 3-40 events over 14 handlers (Full, QueryMatters, a handler whose preference depends on the query so that both key variants of one path are live, None, 404, filtered 403, kvarn-cache-control none / 1s, cache-control max-age=2, exactly 4 MiB and one byte less, `/`->/index.html and `/d/`->/d/index.html expansions, a streaming response) x 4 query forms (none, empty, x=1, x=2) x GET/HEAD/POST/OPTIONS/TRACE x If-Modified-Since (absent, current, 10 s old, the stored entry's own last-modified as a hit reported it, one second before that) x clear_page / clear of `/` as typed / clear_response_caches, default and permissive status filter, cache on/off; timed histories use real waits of 0.3/1.6/2.6 s against lifetimes of 1 and 2 s; every handler embeds its invocation counter, so which replies are hits, which are recomputed and which are 304 is observable and compared with the model; the same history runs against an uncached twin (oracle: same status and same representation, no counter older than its lifetime); non-trivial = at least one hit or 304"
     }
     fn generate(&self, ctx: &Ctx, rng: &mut Rng) -> Vec<String> {
         let mut v = Vec::new();
@@ -164,6 +171,13 @@ impl Group for History {
         v.push("c03.hist 1 0 [R:5:G:13:2:none:a,R:10:G:13:3:none:a,K:13:2,R:15:G:13:2:none:a,R:20:G:13:3:none:a]".to_owned());
         v.push("c03.hist 1 0 [R:5:G:13:3:none:a,R:10:G:13:2:none:a,K:13:3,R:15:G:13:3:none:a,R:20:G:13:2:none:a]".to_owned());
         v.push("c03.hist 1 0 [R:5:G:0:0:none:a,R:10:O:0:0:none:a,R:15:T:0:0:none:a,R:20:H:0:0:none:a,R:25:G:3:0:none:a,R:30:O:3:0:none:a]".to_owned());
+        // a handler that rewrites the request's URI to another page's: neither page may end up with the other's entry
+        v.push("c03.hist 1 0 [R:5:G:19:0:none:a,R:10:G:0:0:none:a,R:15:G:19:0:none:a,R:20:G:0:0:none:a]".to_owned());
+        v.push("c03.hist 1 0 [R:5:G:0:2:none:a,R:10:G:19:2:none:a,R:15:G:0:2:none:a,R:20:G:19:3:none:a,R:25:H:0:0:none:a]".to_owned());
+        // If-Modified-Since on the boundary: three GETs (the second and third are hits and report the entry's second),
+        // then a copy from exactly that second (304) and a copy one second older (not 304)
+        v.push("c03.hist 1 0 [R:5:G:0:0:none:a,R:10:G:0:0:none:a,R:15:G:0:0:lm0:a,R:20:G:0:0:lm1:a,R:25:H:0:0:lm1:a,R:30:G:0:0:lm0:a]".to_owned());
+        v.push("c03.hist 1 0 [R:5:G:1:2:none:a,R:10:G:1:2:none:a,R:15:G:1:2:lm1:a,R:20:G:1:2:lm0:a,K:1:2,R:25:G:1:2:lm1:a,R:30:G:1:2:none:a,R:35:G:1:2:lm1:a]".to_owned());
         let n = if ctx.mode == Mode::Quick { 1200 } else { 30_000 };
         for _ in 0..n {
             let ce = b01(!rng.chance(1, 10));
@@ -183,6 +197,10 @@ impl Group for History {
         let t0 = std::time::Instant::now();
         let mut outs = Vec::new();
         let mut problems = Vec::new();
+        // per (page, query): the counter of the last GET/HEAD reply, and the last-modified a *hit* reported (= the second
+        // the stored entry was created in); both forgotten at every clear and whenever the page is recomputed
+        let mut last_counter: std::collections::HashMap<(usize, usize), String> = Default::default();
+        let mut hit_lm: std::collections::HashMap<(usize, usize), time::OffsetDateTime> = Default::default();
         for ev in parse_list(p[3]).unwrap() {
             let f: Vec<&str> = ev.split(':').collect();
             match f[0] {
@@ -198,14 +216,22 @@ impl Group for History {
                     let routed = TABLE[pi].0;
                     let typed = match (routed, f[6]) { ("/index.html", "a") => "/", ("/d/index.html", "a") => "/d/", (r, _) => r };
                     let uri = match QUERIES[f[4].parse::<usize>().unwrap()] { None => typed.to_owned(), Some(q) => format!("{typed}?{q}") };
+                    let qi: usize = f[4].parse().unwrap();
+                    let tracked = !is_vary(pi) && matches!(f[2], "G" | "H");
+                    let entry_lm: Option<time::OffsetDateTime> = if tracked { hit_lm.get(&(pi, qi)).copied() } else { None };
                     let mk = || {
                         let mut b = Request::builder().method(match f[2] { "G" => "GET", "H" => "HEAD", "O" => "OPTIONS", "T" => "TRACE", _ => "POST" }).uri(&uri);
                         if is_vary(pi) && class_of(f[6]) > 0 {
                             b = b.header("x-lang", if class_of(f[6]) == 1 { "sv-SE" } else { "de" });
                         }
                         if f[5] != "none" {
-                            let now = time::OffsetDateTime::now_utc() - if f[5] == "old" { time::Duration::seconds(10) } else { time::Duration::ZERO };
-                            b = b.header("if-modified-since", now.format(&comprash::HTTP_DATE).unwrap());
+                            let when = match (f[5], entry_lm) {
+                                ("lm0", Some(lm)) => lm,
+                                ("lm1", Some(lm)) => lm - time::Duration::seconds(1),
+                                ("old", _) | ("lm1", None) => time::OffsetDateTime::now_utc() - time::Duration::seconds(10),
+                                _ => time::OffsetDateTime::now_utc(),
+                            };
+                            b = b.header("if-modified-since", when.format(&comprash::HTTP_DATE).unwrap());
                         }
                         b.body(kvarn::application::Body::Bytes(Bytes::new().into())).unwrap()
                     };
@@ -221,8 +247,21 @@ impl Group for History {
                     let (st, body) = show(&reply);
                     let (tst, tbody) = show(&treply);
                     if st == 304 {
-                        outs.push("304".to_owned());
+                        // a copy one second older than the entry must not be validated (statement: "not older, to the second")
+                        outs.push(if f[5] == "lm1" && entry_lm.is_some() { "304!older-copy-validated".to_owned() } else { "304".to_owned() });
                     } else {
+                        if tracked {
+                            let counter = body.split('#').nth(1).unwrap_or("?").to_owned();
+                            if last_counter.get(&(pi, qi)) == Some(&counter) {
+                                // the same representation again: a hit; its last-modified is the entry's creation second
+                                let lm = reply.response.headers().get("last-modified").and_then(|h| h.to_str().ok())
+                                    .and_then(|v| time::PrimitiveDateTime::parse(v, &comprash::HTTP_DATE).ok()).map(time::PrimitiveDateTime::assume_utc);
+                                match lm { Some(lm) => { hit_lm.insert((pi, qi), lm); } None => { hit_lm.remove(&(pi, qi)); } }
+                            } else {
+                                last_counter.insert((pi, qi), counter);
+                                hit_lm.remove(&(pi, qi));
+                            }
+                        }
                         outs.push(format!("{st}#{}", body.split('#').nth(1).unwrap_or("?")));
                         // statement-level: same status and representation as the uncached server
                         if st != tst || body.split('#').next() != tbody.split('#').next() {
@@ -231,15 +270,21 @@ impl Group for History {
                     }
                 }
                 "K" => {
+                    last_counter.clear();
+                    hit_lm.clear();
                     let pi: usize = f[1].parse().unwrap();
                     let uri = match QUERIES[f[2].parse::<usize>().unwrap()] { None => TABLE[pi].0.to_owned(), Some(q) => format!("{}?{q}", TABLE[pi].0) };
                     coll.clear_page("localhost", &uri.parse().unwrap());
                 }
                 "KR" => {
+                    last_counter.clear();
+                    hit_lm.clear();
                     let uri = match QUERIES[f[1].parse::<usize>().unwrap()] { None => "/".to_owned(), Some(q) => format!("/?{q}") };
                     coll.clear_page("localhost", &uri.parse().unwrap());
                 }
                 _ => {
+                    last_counter.clear();
+                    hit_lm.clear();
                     rt.block_on(coll.clear_response_caches(None));
                 }
             }
@@ -249,6 +294,9 @@ impl Group for History {
     fn oracle(&self, _ctx: &Ctx, line: &str, out: &str) -> Option<(String, String)> {
         if out.contains("DIFFERS-FROM-UNCACHED") || out == "panic" {
             return Some((format!("uncached:{line}"), out.to_owned()));
+        }
+        if out.contains("304!older-copy-validated") {
+            return Some((format!("ims-older:{line}"), format!("`304 Not Modified` for an If-Modified-Since one second before the stored entry's last-modified: {out}")));
         }
         // statement-level (C04): responses that are not cacheable are recomputed on every request — their
         // invocation counters never repeat; POST never repeats either.
@@ -330,6 +378,10 @@ impl Group for History {
             }
         }
         None
+    }
+    fn driver_line(&self, line: &str) -> String {
+        // the model takes If-Modified-Since as "current" or "10 s old"; an entry's own second is current, the second before it old
+        line.replace(":lm0:", ":new:").replace(":lm1:", ":old:")
     }
     fn nontrivial(&self, _l: &str, o: &str) -> bool {
         // a repeated counter = a hit
